@@ -36,11 +36,13 @@ let () =
   oom_reg "oom_dict_encode" 0 false (fun a -> oom_case_dict_encode (l a.(0)));
   oom_reg "oom_dict_size" 0 false (fun a -> oom_case_dict_size (l a.(0)));
   oom_reg "oom_dict_stats" 0 false (fun a -> oom_case_dict_stats (l a.(0)));
+  oom_reg "oom_dict_ratio" 0 false (fun a -> oom_case_dict_ratio (l a.(0)));
   oom_reg "oom_dict_decode" 1 false (fun _ -> oom_dict_decode_skel);
   oom_reg "oom_dict_decode_into" 0 false (fun _ -> oom_dict_decode_into_skel);
   oom_reg "oom_pfor_threshold" 0 false (fun a -> oom_case_pfor_threshold (l a.(0)));
   oom_reg "oom_pfor_encode" 0 false (fun a -> oom_case_pfor_encode (l a.(0)) (n a.(1)));
   oom_reg "oom_float_encode" 0 false (fun _ -> oom_float_encode_skel);
+  oom_reg "oom_float_encode_auto" 0 false (fun _ -> oom_float_encode_auto_skel);
   oom_reg "oom_float_decode" 0 false (fun a -> oom_case_float_decode (l a.(0)));
   oom_reg "oom_adp_unique" 0 false (fun a -> oom_case_adp_unique (l a.(0)));
   oom_reg "oom_adp_analyze" 0 false (fun a -> oom_case_adp_unique (l a.(0)));
